@@ -562,6 +562,13 @@ func ParamOf(v ssa.Value) *ssa.Parameter {
 		return nil
 	}
 	al, ok := u.X.(*ssa.Alloc)
+	if fv, isFV := u.X.(*ssa.FreeVar); isFV {
+		// inside a closure: the captured cell of the enclosing function
+		al, ok = FreeVarCell(fv), true
+		if al == nil {
+			return nil
+		}
+	}
 	if !ok {
 		return nil
 	}
@@ -744,4 +751,82 @@ func (l RangeLoop) InLoop(x *ssa.BasicBlock) bool {
 		return false
 	}
 	return x == l.Header || Reachable(x, l.Header, nil)
+}
+
+// SliceSources follows reslices and phis back to the values v's elements
+// come from: every element of v is an element of one of the results.
+func SliceSources(v ssa.Value) []ssa.Value {
+	var out []ssa.Value
+	seen := map[ssa.Value]bool{}
+	var walk func(v ssa.Value)
+	walk = func(v ssa.Value) {
+		v = Strip(v)
+		if seen[v] {
+			return
+		}
+		seen[v] = true
+		switch x := v.(type) {
+		case *ssa.Slice:
+			if _, isSlice := x.X.Type().Underlying().(*types.Slice); isSlice {
+				walk(x.X)
+				return
+			}
+		case *ssa.Phi:
+			for _, e := range x.Edges {
+				walk(e)
+			}
+			return
+		}
+		out = append(out, v)
+	}
+	walk(v)
+	return out
+}
+
+// ElementsFrom reports whether every element of slice v is an element of
+// origin (v is origin, a reslice of it, or a merge of such).
+func ElementsFrom(v, origin ssa.Value) bool {
+	src := SliceSources(v)
+	if len(src) == 0 {
+		return false
+	}
+	for _, s := range src {
+		if s != Strip(origin) {
+			return false
+		}
+	}
+	return true
+}
+
+// FreeVarCell resolves a captured variable to the local cell (Alloc) of the
+// enclosing function it is bound to (through nested closures), or nil.
+func FreeVarCell(fv *ssa.FreeVar) *ssa.Alloc {
+	for d := 0; d < 5; d++ {
+		fn := fv.Parent()
+		par := fn.Parent()
+		if par == nil {
+			return nil
+		}
+		idx := -1
+		for i, f := range fn.FreeVars {
+			if f == fv {
+				idx = i
+			}
+		}
+		var bound ssa.Value
+		ForEachInstr(par, false, func(in ssa.Instruction) {
+			if mc, ok := in.(*ssa.MakeClosure); ok && mc.Fn == ssa.Value(fn) && idx >= 0 && idx < len(mc.Bindings) {
+				bound = mc.Bindings[idx]
+			}
+		})
+		switch b := bound.(type) {
+		case *ssa.Alloc:
+			return b
+		case *ssa.FreeVar:
+			fv = b
+			continue
+		}
+		return nil
+	}
+	return nil
 }
